@@ -62,8 +62,8 @@ def _tree(step):
   return {'w': np.full((3,), float(step), np.float32), 'step': np.array(step)}
 
 
-def _save(ck, d, step, keep, n, overwrite):
-  return ck.save_checkpoint(d, _tree(step), step, keep=keep, keep_every_n_steps=n, overwrite=overwrite, orbax_checkpointer=None)
+def _save(ck, d, step, keep, n, overwrite, prefix='checkpoint_'):
+  return ck.save_checkpoint(d, _tree(step), step, prefix=prefix, keep=keep, keep_every_n_steps=n, overwrite=overwrite, orbax_checkpointer=None)
 
 
 def _histories(tier):
@@ -76,6 +76,10 @@ def _histories(tier):
   hs.append(dict(steps=[1, 2, 3, 4, 2], keep=3, n=2, overwrite=True))
   hs.append(dict(steps=[0.5, 1.5, 10.0, 9e1], keep=2, n=None, overwrite=False))
   hs.append(dict(steps=[-2, -1, 0, 1], keep=2, n=None, overwrite=False))
+  # prefixes that contain digits, '-' and '.' themselves: the step is the number AFTER the prefix
+  for prefix in ('gpt2_', 'resnet50_v1.5_', 'run-3_'):
+    hs.append(dict(steps=[0, 5, 10, 15, 20, 25], keep=1, n=10, overwrite=False, prefix=prefix))
+    hs.append(dict(steps=[1, 2, 3, 4, 5, 6], keep=2, n=2, overwrite=False, prefix=prefix))
   return hs
 
 
@@ -84,15 +88,18 @@ def _run_history(ck, h):
   d = tempfile.mkdtemp(prefix='c11_', dir=os.environ.get('PYVC_TMP', '/var/tmp'))
   try:
     expect = set()
+    prefix = h.get('prefix', 'checkpoint_')
+    _l = _listing
+    _listing_p = lambda ck_, d_: _l(ck_, d_, prefix)
     for i, step in enumerate(h['steps']):
-      before = _listing(ck, d)
+      before = _listing_p(ck, d)
       legal = h['overwrite'] or not before or step > max(before)
       try:
-        _save(ck, d, step, h['keep'], h['n'], h['overwrite'])
+        _save(ck, d, step, h['keep'], h['n'], h['overwrite'], prefix)
         raised = False
       except Exception as e:  # noqa
         raised = True
-      after = _listing(ck, d)
+      after = _listing_p(ck, d)
       if not legal:
         if not raised or after != before:
           return dict(inputs=dict(history=h, at=i), observed=f'save of step {step} with newer/equal steps {sorted(before)} present and overwrite=False: raised={raised}, dir {sorted(before)} -> {sorted(after)}', violated='overwrite-error')
@@ -102,10 +109,10 @@ def _run_history(ck, h):
       want = _reference(before, step, h['keep'], h['n'], h['overwrite'])
       if after != {float(x) for x in want}:
         return dict(inputs=dict(history=h, at=i), observed=f'after saving step {step} (keep={h["keep"]}, keep_every_n_steps={h["n"]}): directory {sorted(after)}, policy {sorted(float(x) for x in want)}', violated='retention')
-      latest = ck.latest_checkpoint(d)
-      if latest is None or float(os.path.basename(latest)[len('checkpoint_'):]) != max(after):
+      latest = ck.latest_checkpoint(d, prefix)
+      if latest is None or float(os.path.basename(latest)[len(prefix):]) != max(after):
         return dict(inputs=dict(history=h, at=i), observed=f'latest_checkpoint={latest} but largest step is {max(after)}', violated='latest')
-      got = ck.restore_checkpoint(d, None)
+      got = ck.restore_checkpoint(d, None, prefix=prefix)
       if float(np.asarray(got['step'])) != float(max(after)):
         return dict(inputs=dict(history=h, at=i), observed='restore of the latest step returned another tree', violated='restore')
     return None
